@@ -903,10 +903,6 @@ class Oracle:
                 w = ws[0]
                 if w['where'] == 'attr' and (w['imp'] or not self.attr_ok(p, w['v'])):
                     return False
-                if w['v'] == 'inherit' and w['imp'] and any(d is not w and self.rank(d) > self.rank(w) for d in ds):
-                    # same known class (inherit-copies-important): the copy takes the SOURCE's flag, so the declaration's
-                    # own !important is lost and a later plain declaration replaces it; dedicated scenario only
-                    return False
                 seen = set()
                 for d in ds:
                     key = (d['where'], d['sel'], d['sheet']) if d['where'] == 'css' else d['where']
@@ -921,12 +917,6 @@ class Oracle:
                         return False
                     if not (w['imp'] or self.rank(d) < self.rank(w)):
                         return False
-                    if d['v'] == 'inherit':
-                        # excluded here, exercised by the dedicated known-class scenario: an `inherit` that loses
-                        # while an ancestor's declaration is important
-                        for a in e.ancestors():
-                            if any(x['p'] == p and x['imp'] for x in a.decls):
-                                return False
             for d in e.decls:
                 if d['where'] == 'css' and d['sel'] in ('type', 'univ'):
                     group = tags[e.tag] if d['sel'] == 'type' else list(els(root))
@@ -1041,7 +1031,7 @@ class Oracle:
         order (an !important winner in the middle of the cascade, or a plain winner on top)"""
         rng = self.rng
         cands = [(e, d) for e in els(root) for d in e.decls if d['role'] == 'win' and d['sel'] not in ('type', 'univ')
-                 and d['v'] != 'inherit' and sum(1 for x in e.decls if x['p'] == d['p']) == 1]
+                 and sum(1 for x in e.decls if x['p'] == d['p']) == 1]
         if not cands:
             return None
         e, w = rng.choice(cands)
@@ -1350,7 +1340,7 @@ def known_scenarios(orc, dpi):
         p1.decls.append(orc.new_decl('stroke', 'blue'))
     lo = orc.new_decl(p, 'inherit', role='lose', cv=None)
     p1.decls.append(lo)
-    out.append(('inherit-copies-important', root, "%s: important on the ancestor, own CSS/style value %s, losing attribute %s=\"inherit\"" % (p, vb, p)))
+    out.append((None, root, "regression 7ac03db - %s: important on the ancestor, own CSS/style value %s, losing attribute %s=\"inherit\"" % (p, vb, p)))
     # the same class the other way round: `p: inherit !important` takes the (plain) flag of its source and is then
     # replaced by a later plain declaration
     root = template()
@@ -1365,7 +1355,7 @@ def known_scenarios(orc, dpi):
     lo = orc.new_decl(p, vb, role='lose', cv=None)
     lo.update(where='style')
     p1.decls.append(lo)
-    out.append(('inherit-copies-important', root, "%s: `inherit !important` by a CSS rule, then a plain style declaration %s" % (p, vb)))
+    out.append((None, root, "regression 7ac03db - %s: `inherit !important` by a CSS rule, then a plain style declaration %s" % (p, vb)))
     # inherit-relative-value: inherit of a context-dependent value
     root = template()
     g1, g2, t1, p1 = by_id(root, 'g1'), by_id(root, 'g2'), by_id(root, 't1'), by_id(root, 'p1')
@@ -1529,7 +1519,8 @@ def run(ctx):
     ]
     ctx.assumptions = ["the `font` shorthand is not modelled (never generated)",
                        "equal trees = equal Tree::to_string token-wise, numbers within 1e-4 relative",
-                       "known classes: inherit-copies-important, inherit-relative-value (refuted in Coq, guarded theorems proved)"]
+                       "known class: inherit-relative-value (refuted in Coq, guarded theorem proved); inherit-copies-important was fixed "
+                       "by 7ac03db and its scenarios are must-pass regressions"]
     broken = [b for b in ctx.translate() if b['name'] in MY_TIES or b['kind'] in ('translator',)]
     for b in broken:
         ctx.log("broken tie relevant to C09: %s" % b)
